@@ -164,7 +164,7 @@ CLAIMED = {
  },
  "C13": {
   "technique": "Lean 4 proof (policy-table theorems by decide over regenerated tables, detection theorems per constraint kind for all values, counterexample theorems) + edit-catalogue sweep with validated witnesses on the real analyser",
-  "text": ("Proof, partial: 46 theorems - the regenerated compatibility tables classify every narrowing code Breaking in its context (policy_sound_*, complete "
+  "text": ("Round-5 additions (objects with no declared property on ONE side): first_required_property_step (the walk over the new side's properties appends AddedRequiredProperty when the old side declares none), last_property_removed_step (DeletedProperty whatever the new side holds), compareProperties_guard (the early return needs BOTH sides without properties), with the two table facts AddedRequiredProperty_breaking_in_request / DeletedProperty_breaking_in_response; step level, not lifted to the report. Proof, partial: 46 theorems - the regenerated compatibility tables classify every narrowing code Breaking in its context (policy_sound_*, complete "
            "finite quantifier); CompareProps on two primitives of one type returns exactly the string / numeric / item-count group, and every narrowing kind the "
            "analyser reads (min/maxLength, pattern, string enum shrink, minimum/maximum incl. exclusive, min/maxItems, type and format narrowing) yields a "
            "Narrowed/AddedConstraint/ChangedType/DeletedEnumValue entry for ALL values (detected_*); text mode exits non-zero once an entry is Breaking; "
